@@ -1,5 +1,865 @@
 package main
 
-import "verif/mon"
+import (
+	"context"
+	"crypto/elliptic"
+	"crypto/x509"
+	"errors"
+	"fmt"
+	"math/rand/v2"
+	"net"
+	"os"
+	"path/filepath"
+	"sync"
+	"sync/atomic"
+	"time"
 
-func checkC24(r *mon.Run) {}
+	"github.com/patrickmn/go-cache"
+	"google.golang.org/protobuf/proto"
+
+	"github.com/scionproto/scion/pkg/addr"
+	cppb "github.com/scionproto/scion/pkg/proto/control_plane"
+	"github.com/scionproto/scion/pkg/scrypto/cppki"
+	seg "github.com/scionproto/scion/pkg/segment"
+	"github.com/scionproto/scion/private/segment/segverifier"
+	infra "github.com/scionproto/scion/private/segment/verifier"
+	"github.com/scionproto/scion/private/storage/trust/sqlite"
+	"github.com/scionproto/scion/private/trust"
+	"github.com/scionproto/scion/private/trust/compat"
+
+	"verif/beaconpki"
+	"verif/beaconref"
+	"verif/mon"
+)
+
+// ---- fixtures: forged PKI in a real sqlite trust DB ----
+
+type c24Ident struct {
+	kind   string
+	ia     addr.IA
+	key    *beaconpki.Key
+	chains [][]*x509.Certificate
+}
+
+type c24AS struct {
+	ia                                 addr.IA
+	good, short, late, split, edge     *c24Ident
+	shortNA, lateNB, splitANA, splitBN time.Time
+	edgeNB, edgeNA                     time.Time
+}
+
+type c24World struct {
+	now0     time.Time
+	ases     []*c24AS
+	orphan   []*beaconpki.Key // keys nobody certified
+	db       sqlite.DB
+	provider trust.FetchingProvider
+	fetches  *atomic.Int64
+	dir      string
+}
+
+type noRemote struct{ n *atomic.Int64 }
+
+func (f noRemote) Chains(context.Context, trust.ChainQuery, net.Addr) ([][]*x509.Certificate, error) {
+	f.n.Add(1)
+	return nil, nil // the remote has nothing better than the local DB
+}
+
+func (f noRemote) TRC(context.Context, cppki.TRCID, net.Addr) (cppki.SignedTRC, error) {
+	f.n.Add(1)
+	return cppki.SignedTRC{}, errors.New("no such TRC")
+}
+
+func c24NewWorld() (*c24World, error) {
+	w := &c24World{now0: time.Now().UTC().Truncate(time.Second), fetches: new(atomic.Int64)}
+	dir, err := os.MkdirTemp("", "verif-c24-")
+	if err != nil {
+		return nil, err
+	}
+	w.dir = dir
+	db, err := sqlite.New(filepath.Join(dir, "trust.db"), nil)
+	if err != nil {
+		return nil, err
+	}
+	w.db = db
+	ctx := context.Background()
+	now := w.now0
+	for isdN := 1; isdN <= 2; isdN++ {
+		isd, err := beaconpki.NewISD(addr.ISD(isdN), addr.AS(0xff00_0000_0100+uint64(isdN)*0x10), now)
+		if err != nil {
+			return nil, err
+		}
+		if _, err := db.InsertTRC(ctx, isd.Signed); err != nil {
+			return nil, err
+		}
+		for a := 0; a < 5; a++ {
+			ia := addr.MustIAFrom(addr.ISD(isdN), addr.AS(0xff00_0000_0100+uint64(isdN)*0x10+uint64(a)))
+			as := &c24AS{ia: ia,
+				shortNA: now.Add(2 * time.Hour), lateNB: now.Add(-5 * time.Minute),
+				splitANA: now.Add(time.Hour), splitBN: now.Add(-20 * time.Minute),
+				edgeNB: now.Add(-time.Hour), edgeNA: now.Add(3 * time.Hour),
+			}
+			curve := elliptic.P256()
+			if isdN == 1 && a == 3 {
+				curve = elliptic.P384()
+			}
+			if isdN == 1 && a == 4 {
+				curve = elliptic.P521()
+			}
+			mk := func(kind string, c elliptic.Curve, windows ...[2]time.Time) (*c24Ident, error) {
+				k, err := beaconpki.NewKey(c)
+				if err != nil {
+					return nil, err
+				}
+				id := &c24Ident{kind: kind, ia: ia, key: k}
+				for _, win := range windows {
+					chain, err := isd.IssueAS(ia, k, win[0], win[1])
+					if err != nil {
+						return nil, fmt.Errorf("%s %s: %w", ia, kind, err)
+					}
+					if _, err := db.InsertChain(ctx, chain); err != nil {
+						return nil, err
+					}
+					id.chains = append(id.chains, chain)
+				}
+				return id, nil
+			}
+			if as.good, err = mk("good", curve, [2]time.Time{now.Add(-30 * 24 * time.Hour), now.Add(300 * 24 * time.Hour)}); err != nil {
+				return nil, err
+			}
+			if as.short, err = mk("short", elliptic.P256(), [2]time.Time{now.Add(-2 * time.Hour), as.shortNA}); err != nil {
+				return nil, err
+			}
+			if as.late, err = mk("late", elliptic.P256(), [2]time.Time{as.lateNB, now.Add(100 * 24 * time.Hour)}); err != nil {
+				return nil, err
+			}
+			if as.split, err = mk("split", elliptic.P256(),
+				[2]time.Time{now.Add(-10 * 24 * time.Hour), as.splitANA},
+				[2]time.Time{as.splitBN, now.Add(100 * 24 * time.Hour)}); err != nil {
+				return nil, err
+			}
+			if as.edge, err = mk("edge", elliptic.P256(), [2]time.Time{as.edgeNB, as.edgeNA}); err != nil {
+				return nil, err
+			}
+			w.ases = append(w.ases, as)
+		}
+	}
+	for i := 0; i < 3; i++ {
+		k, err := beaconpki.NewKey(elliptic.P256())
+		if err != nil {
+			return nil, err
+		}
+		w.orphan = append(w.orphan, k)
+	}
+	local := w.ases[0].ia
+	w.provider = trust.FetchingProvider{
+		DB:       db,
+		Recurser: trust.ASLocalRecurser{IA: local},
+		Fetcher:  noRemote{n: w.fetches},
+		Router:   trust.LocalRouter{IA: local},
+	}
+	return w, nil
+}
+
+func (w *c24World) close() {
+	_ = w.db.Close()
+	_ = os.RemoveAll(w.dir)
+}
+
+func (w *c24World) verifier(c *cache.Cache) infra.Verifier {
+	return compat.Verifier{Verifier: trust.Verifier{Engine: w.provider, Cache: c}}
+}
+
+// ---- segment construction (fixture; signing goes through the real AddASEntry + trust.Signer) ----
+
+type c24Entry struct {
+	as      *c24AS
+	id      *c24Ident      // certified identity that signs; nil if key is set
+	key     *beaconpki.Key // explicit key (foreign / uncertified)
+	keyIDIA addr.IA        // ISD-AS written into the verification key id (0: the identity's / as.ia)
+	exp     uint8
+	ingress uint16
+	egress  uint16
+	mac     [6]byte
+	peers   int
+	mtu     int
+}
+
+type c24Spec struct {
+	ts         time.Time
+	segID      uint16
+	terminated bool
+	next       addr.IA // Next of the last entry of an open beacon
+	entries    []c24Entry
+}
+
+func (s c24Spec) clone() c24Spec {
+	c := s
+	c.entries = append([]c24Entry(nil), s.entries...)
+	return c
+}
+
+func c24GenSpec(rng *rand.Rand, w *c24World, n int) c24Spec {
+	s := c24Spec{
+		ts:         w.now0.Add(-time.Duration(rng.IntN(30*60)) * time.Second),
+		segID:      uint16(rng.IntN(1 << 16)),
+		terminated: rng.IntN(2) == 0,
+	}
+	perm := rng.Perm(len(w.ases))
+	for i := 0; i < n; i++ {
+		e := c24Entry{as: w.ases[perm[i]], exp: uint8(rng.IntN(256)), peers: []int{0, 0, 1, 2}[rng.IntN(4)], mtu: 1200 + rng.IntN(8000)}
+		e.id = e.as.good
+		if i > 0 {
+			e.ingress = uint16(1 + rng.IntN(65535))
+		}
+		if !(s.terminated && i == n-1) {
+			e.egress = uint16(1 + rng.IntN(65535))
+		}
+		for j := range e.mac {
+			e.mac[j] = byte(rng.IntN(256))
+		}
+		s.entries = append(s.entries, e)
+	}
+	s.next = addr.MustIAFrom(addr.ISD(1+rng.IntN(2)), addr.AS(0xff00_0000_0900+uint64(rng.IntN(100))))
+	return s
+}
+
+func (s c24Spec) build(rng *rand.Rand) (*seg.PathSegment, error) {
+	ps, err := seg.CreateSegment(s.ts, s.segID)
+	if err != nil {
+		return nil, err
+	}
+	for i, e := range s.entries {
+		ent := seg.ASEntry{
+			Local: e.as.ia, MTU: e.mtu,
+			HopEntry: seg.HopEntry{IngressMTU: 1400, HopField: seg.HopField{
+				ExpTime: e.exp, ConsIngress: e.ingress, ConsEgress: e.egress, MAC: e.mac}},
+		}
+		switch {
+		case i+1 < len(s.entries):
+			ent.Next = s.entries[i+1].as.ia
+		case !s.terminated:
+			ent.Next = s.next
+		}
+		for p := 0; p < e.peers; p++ {
+			ent.PeerEntries = append(ent.PeerEntries, seg.PeerEntry{
+				Peer: addr.MustIAFrom(3, addr.AS(1+rng.IntN(1000))), PeerInterface: uint16(1 + rng.IntN(1000)), PeerMTU: 1400,
+				HopField: seg.HopField{ExpTime: e.exp, ConsIngress: uint16(1 + rng.IntN(60000)), ConsEgress: e.egress, MAC: e.mac},
+			})
+		}
+		key := e.key
+		ia := e.keyIDIA
+		if e.id != nil {
+			key = e.id.key
+			if ia == 0 {
+				ia = e.id.ia
+			}
+		}
+		if ia == 0 {
+			ia = e.as.ia
+		}
+		signer := trust.Signer{
+			PrivateKey: key.Priv, Algorithm: key.Algo, IA: ia, SubjectKeyID: key.SKID,
+			Expiration: time.Now().Add(365 * 24 * time.Hour),
+			TRCID:      cppki.TRCID{ISD: ia.ISD(), Base: 1, Serial: 1},
+		}
+		if err := ps.AddASEntry(context.Background(), ent, signer); err != nil {
+			return nil, err
+		}
+	}
+	return ps, nil
+}
+
+// ---- wire handling ----
+
+// c24Wire does the round trip over the encoded form.
+func c24Wire(pb *cppb.PathSegment) ([]byte, *cppb.PathSegment, error) {
+	raw, err := proto.Marshal(pb)
+	if err != nil {
+		return nil, nil, err
+	}
+	var out cppb.PathSegment
+	if err := proto.Unmarshal(raw, &out); err != nil {
+		return raw, nil, err
+	}
+	return raw, &out, nil
+}
+
+// c24Lenient parses without the structural Validate step, so that
+// VerifySegment alone has to notice a structural mutation.
+func c24Lenient(pb *cppb.PathSegment) (*seg.PathSegment, error) {
+	var si cppb.SegmentInformation
+	if err := proto.Unmarshal(pb.SegmentInfo, &si); err != nil {
+		return nil, err
+	}
+	if si.SegmentId > 65535 {
+		return nil, errors.New("segment id overflows")
+	}
+	ps := &seg.PathSegment{Info: seg.Info{Raw: pb.SegmentInfo, Timestamp: time.Unix(si.Timestamp, 0), SegmentID: uint16(si.SegmentId)}}
+	for _, e := range pb.AsEntries {
+		a, err := seg.ASEntryFromPB(e)
+		if err != nil {
+			return nil, err
+		}
+		ps.ASEntries = append(ps.ASEntries, a)
+	}
+	if len(ps.ASEntries) == 0 {
+		return nil, errors.New("no entries")
+	}
+	return ps, nil
+}
+
+type c24Case struct {
+	Replay  string `json:"replay"`
+	Base    int    `json:"base"`
+	Entries int    `json:"entries"`
+	Kind    string `json:"mutation"`
+	Detail  string `json:"detail"`
+	Config  string `json:"verifier"`
+	Path    string `json:"path"`
+	Expect  string `json:"expect"`
+	Outcome string `json:"outcome"`
+	Segment string `json:"segment_wire_hex,omitempty"`
+}
+
+type c24Ctx struct {
+	r *mon.Run
+	w *c24World
+}
+
+// check runs one (possibly mutated) wire segment through parse + VerifySegment
+// with the given verifier and judges the outcome. beacon selects the parser.
+func (c *c24Ctx) check(cs c24Case, pb *cppb.PathSegment, beacon bool, v infra.Verifier, wantOK bool, key string) bool {
+	r := c.r
+	r.Eval(1)
+	raw, wire, err := c24Wire(pb)
+	cs.Expect = "rejected"
+	if wantOK {
+		cs.Expect = "verifies"
+	}
+	fail := func(what string) {
+		cs.Segment = mon.Hex(raw)
+		r.Violation(key, what, cs)
+	}
+	ctx := context.Background()
+	var ps *seg.PathSegment
+	if err == nil {
+		if beacon {
+			ps, err = seg.BeaconFromPB(wire)
+		} else {
+			ps, err = seg.SegmentFromPB(wire)
+		}
+	}
+	if err != nil {
+		// parse failure = detection. For a mutation the verification step alone must notice it as well.
+		cs.Path, cs.Outcome = "strict", "parse error: "+err.Error()
+		if wantOK {
+			fail(fmt.Sprintf("%s [%s]: expected to verify, parser rejected it: %v", cs.Kind, cs.Config, err))
+			return false
+		}
+		r.Class(fmt.Sprintf("%s/%s/detected-by=parse", cs.Kind, cs.Config))
+		r.Event("reject_parse")
+		if wire == nil {
+			return true
+		}
+		lp, lerr := c24Lenient(wire)
+		if lerr != nil {
+			r.Class(fmt.Sprintf("%s/%s/lenient=parse", cs.Kind, cs.Config))
+			return true
+		}
+		r.Eval(1)
+		var verr error
+		pv, stack := mon.Try(func() { verr = segverifier.VerifySegment(ctx, v, nil, lp) })
+		cs.Path = "lenient (no structural validation)"
+		if pv != nil {
+			cs.Outcome = fmt.Sprint("panic: ", pv)
+			cs.Segment = mon.Hex(raw)
+			r.Violation("C24:panic:"+mon.PanicSite(stack), fmt.Sprintf("VerifySegment panicked: %v\n%s", pv, stack), cs)
+			return false
+		}
+		if verr == nil {
+			cs.Outcome = "verified"
+			fail(fmt.Sprintf("%s [%s]: structurally invalid after mutation, and VerifySegment on its own accepts it", cs.Kind, cs.Config))
+			return false
+		}
+		r.Class(fmt.Sprintf("%s/%s/lenient=verify", cs.Kind, cs.Config))
+		r.Event("reject_verify_lenient")
+		return true
+	}
+	var verr error
+	pv, stack := mon.Try(func() { verr = segverifier.VerifySegment(ctx, v, nil, ps) })
+	cs.Path = "strict"
+	if pv != nil {
+		cs.Outcome = fmt.Sprint("panic: ", pv)
+		cs.Segment = mon.Hex(raw)
+		r.Violation("C24:panic:"+mon.PanicSite(stack), fmt.Sprintf("VerifySegment panicked: %v\n%s", pv, stack), cs)
+		return false
+	}
+	if verr == nil {
+		cs.Outcome = "verified"
+	} else {
+		cs.Outcome = "verification error: " + verr.Error()
+		if len(cs.Outcome) > 400 {
+			cs.Outcome = cs.Outcome[:400]
+		}
+	}
+	switch {
+	case wantOK && verr != nil:
+		fail(fmt.Sprintf("%s [%s]: expected to verify, got: %v", cs.Kind, cs.Config, trunc(verr.Error(), 300)))
+		return false
+	case !wantOK && verr == nil:
+		fail(fmt.Sprintf("%s [%s] (%s): mutated segment verifies", cs.Kind, cs.Config, cs.Detail))
+		return false
+	case wantOK:
+		r.Class(fmt.Sprintf("%s/%s/verifies", cs.Kind, cs.Config))
+		r.Event("accept")
+	default:
+		r.Class(fmt.Sprintf("%s/%s/detected-by=verify", cs.Kind, cs.Config))
+		r.Event("reject_verify")
+	}
+	if r.WantSample() && !wantOK && cs.Kind == "malleate-earlier-signature" {
+		cs.Segment = mon.Hex(raw)
+		r.Sample(cs)
+	}
+	return true
+}
+
+func trunc(s string, n int) string {
+	if len(s) > n {
+		return s[:n]
+	}
+	return s
+}
+
+func clonePB(pb *cppb.PathSegment) *cppb.PathSegment {
+	return proto.Clone(pb).(*cppb.PathSegment)
+}
+
+func c24Positions(rng *rand.Rand, l, sample int) []int {
+	if sample <= 0 || sample >= l {
+		out := make([]int, l)
+		for i := range out {
+			out[i] = i
+		}
+		return out
+	}
+	return rng.Perm(l)[:sample]
+}
+
+func (c *c24Ctx) family(rng *rand.Rand, base int) {
+	r, w := c.r, c.w
+	thorough := r.Thorough()
+	n := 1 + base%10 // every length 1..10 is visited
+	spec := c24GenSpec(rng, w, n)
+	ps, err := spec.build(rng)
+	if err != nil {
+		r.Inconclusive("fixture-build: " + err.Error())
+		return
+	}
+	pb := seg.PathSegmentToPB(ps)
+	beacon := !spec.terminated
+	other, err := c24GenSpec(rng, w, 1+rng.IntN(10)).build(rng)
+	if err != nil {
+		r.Inconclusive("fixture-build: " + err.Error())
+		return
+	}
+	otherPB := seg.PathSegmentToPB(other)
+
+	type vcfg struct {
+		name string
+		v    infra.Verifier
+	}
+	cfgs := []vcfg{
+		{"uncached", w.verifier(nil)},
+		{"cached", w.verifier(cache.New(time.Minute, 0))},
+	}
+	mk := func(kind, detail, cfg string) c24Case {
+		return c24Case{
+			Replay: fmt.Sprintf("deterministic per seed (keys and signatures are fresh): re-run C24 with --seed %d --tier %s, base %d", r.Seed, r.Tier, base),
+			Base:   base, Entries: n, Kind: kind, Detail: detail, Config: cfg,
+		}
+	}
+	all := func(kind, detail string, m *cppb.PathSegment, asBeacon, wantOK bool, key string) {
+		for _, cf := range cfgs {
+			c.check(mk(kind, detail, cf.name), m, asBeacon, cf.v, wantOK, key)
+		}
+	}
+
+	// 0. untouched (also warms the cache of the cached configuration)
+	all("untouched", "", pb, beacon, true, "C24:rejects-valid:untouched")
+	if rng.IntN(4) == 0 {
+		all("untouched-second-pass", "", pb, beacon, true, "C24:rejects-valid:untouched")
+	}
+	// 1. truncated tail: every proper prefix is a verifiable beacon
+	for m := 1; m < n; m++ {
+		t := clonePB(pb)
+		t.AsEntries = t.AsEntries[:m]
+		all("truncate-tail", fmt.Sprintf("keep %d of %d", m, n), t, true, true, "C24:rejects-valid:truncated")
+	}
+
+	// 2. byte mutations of signed content and of earlier signatures
+	nInfo, nHB, nSig := 4, 4, 3
+	if thorough {
+		nInfo, nHB, nSig = 0, 0, 0 // every byte
+	}
+	mask := func() byte { return byte(1 + rng.IntN(255)) }
+	for _, p := range c24Positions(rng, len(pb.SegmentInfo), nInfo) {
+		m := clonePB(pb)
+		m.SegmentInfo[p] ^= mask()
+		all("info-byte", fmt.Sprintf("byte %d", p), m, beacon, false, "C24:accepts:info-byte")
+	}
+	for i := 0; i < n; i++ {
+		for _, p := range c24Positions(rng, len(pb.AsEntries[i].Signed.HeaderAndBody), nHB) {
+			m := clonePB(pb)
+			m.AsEntries[i].Signed.HeaderAndBody[p] ^= mask()
+			all("header-and-body-byte", fmt.Sprintf("entry %d byte %d", i, p), m, beacon, false, "C24:accepts:header-and-body-byte")
+		}
+		if i < n-1 {
+			for _, p := range c24Positions(rng, len(pb.AsEntries[i].Signed.Signature), nSig) {
+				m := clonePB(pb)
+				m.AsEntries[i].Signed.Signature[p] ^= mask()
+				all("earlier-signature-byte", fmt.Sprintf("entry %d byte %d", i, p), m, beacon, false, "C24:accepts:earlier-signature-byte")
+			}
+		}
+	}
+	{ // length changes
+		m := clonePB(pb)
+		m.SegmentInfo = append(m.SegmentInfo, 0x18, byte(rng.IntN(128))) // extra (unknown) field
+		all("info-append", "unknown field appended", m, beacon, false, "C24:accepts:info-append")
+		i := rng.IntN(n)
+		m = clonePB(pb)
+		hb := m.AsEntries[i].Signed.HeaderAndBody
+		m.AsEntries[i].Signed.HeaderAndBody = append(hb, 0x18, byte(rng.IntN(128)))
+		all("header-and-body-append", fmt.Sprintf("entry %d", i), m, beacon, false, "C24:accepts:header-and-body-append")
+		m = clonePB(pb)
+		hb = m.AsEntries[i].Signed.HeaderAndBody
+		p := rng.IntN(len(hb))
+		m.AsEntries[i].Signed.HeaderAndBody = append(append([]byte(nil), hb[:p]...), hb[p+1:]...)
+		all("header-and-body-delete", fmt.Sprintf("entry %d byte %d", i, p), m, beacon, false, "C24:accepts:header-and-body-delete")
+		if n >= 2 {
+			i = rng.IntN(n - 1)
+			m = clonePB(pb)
+			m.AsEntries[i].Signed.Signature = nil
+			all("earlier-signature-removed", fmt.Sprintf("entry %d", i), m, beacon, false, "C24:accepts:earlier-signature-removed")
+		}
+	}
+
+	// 3. ECDSA malleability (r, n-s): an earlier entry still verifies on its own, the chain must break
+	for i := 0; i < n; i++ {
+		curveN := spec.entries[i].id.key.Priv.Curve.Params().N
+		ms, err := beaconref.MalleateECDSA(pb.AsEntries[i].Signed.Signature, curveN)
+		if err != nil {
+			r.Inconclusive("malleate")
+			continue
+		}
+		m := clonePB(pb)
+		m.AsEntries[i].Signed.Signature = ms
+		if i < n-1 {
+			all("malleate-earlier-signature", fmt.Sprintf("entry %d of %d", i, n), m, beacon, false, "C24:accepts:malleated-earlier-signature")
+			// control: the malleated signature is a valid one — as last entry of the prefix it verifies
+			t := clonePB(m)
+			t.AsEntries = t.AsEntries[:i+1]
+			_, wire, _ := c24Wire(t)
+			if tp, err := seg.BeaconFromPB(wire); err == nil {
+				if segverifier.VerifySegment(context.Background(), cfgs[0].v, nil, tp) == nil {
+					r.Event("malleated_signature_valid_on_its_own")
+				} else {
+					r.Event("malleated_signature_invalid_on_its_own")
+				}
+			}
+		} else {
+			// last entry's own signature: nothing asserted, outcome recorded
+			_, wire, _ := c24Wire(m)
+			var lp *seg.PathSegment
+			if beacon {
+				lp, err = seg.BeaconFromPB(wire)
+			} else {
+				lp, err = seg.SegmentFromPB(wire)
+			}
+			if err == nil {
+				if segverifier.VerifySegment(context.Background(), cfgs[0].v, nil, lp) == nil {
+					r.Event("observed_malleated_last_signature_verifies")
+				} else {
+					r.Event("observed_malleated_last_signature_rejected")
+				}
+			}
+		}
+	}
+
+	// 4. structural mutations
+	if n >= 2 {
+		adj := rng.IntN(n - 1)
+		pairs := [][2]int{{0, n - 1}}
+		if n > 2 {
+			pairs = append(pairs, [2]int{adj, adj + 1})
+		}
+		for _, pr := range pairs {
+			m := clonePB(pb)
+			m.AsEntries[pr[0]], m.AsEntries[pr[1]] = m.AsEntries[pr[1]], m.AsEntries[pr[0]]
+			all("reorder-entries", fmt.Sprintf("swap %d,%d", pr[0], pr[1]), m, beacon, false, "C24:accepts:reorder")
+		}
+		i := rng.IntN(n - 1)
+		m := clonePB(pb)
+		m.AsEntries = append(m.AsEntries[:i], m.AsEntries[i+1:]...)
+		all("remove-entry", fmt.Sprintf("entry %d of %d", i, n), m, beacon, false, "C24:accepts:remove")
+		// signatures / bodies exchanged between two entries
+		a, b := rng.IntN(n), rng.IntN(n-1)
+		if b >= a {
+			b++
+		}
+		m = clonePB(pb)
+		m.AsEntries[a].Signed.Signature, m.AsEntries[b].Signed.Signature = m.AsEntries[b].Signed.Signature, m.AsEntries[a].Signed.Signature
+		all("swap-signatures", fmt.Sprintf("%d,%d", a, b), m, beacon, false, "C24:accepts:swap-signatures")
+		m = clonePB(pb)
+		m.AsEntries[a].Signed.HeaderAndBody, m.AsEntries[b].Signed.HeaderAndBody = m.AsEntries[b].Signed.HeaderAndBody, m.AsEntries[a].Signed.HeaderAndBody
+		all("swap-bodies", fmt.Sprintf("%d,%d", a, b), m, beacon, false, "C24:accepts:swap-bodies")
+	}
+	insertAt := func(m *cppb.PathSegment, p int, e *cppb.ASEntry) {
+		m.AsEntries = append(m.AsEntries, nil)
+		copy(m.AsEntries[p+1:], m.AsEntries[p:])
+		m.AsEntries[p] = e
+	}
+	{
+		j, p := rng.IntN(n), rng.IntN(n+1)
+		m := clonePB(pb)
+		insertAt(m, p, proto.Clone(pb.AsEntries[j]).(*cppb.ASEntry))
+		all("insert-duplicate", fmt.Sprintf("copy of entry %d at %d", j, p), m, beacon, false, "C24:accepts:insert")
+		m = clonePB(pb)
+		insertAt(m, n, proto.Clone(pb.AsEntries[n-1]).(*cppb.ASEntry))
+		all("insert-duplicate", "copy of the last entry appended", m, beacon, false, "C24:accepts:insert")
+		q := rng.IntN(len(otherPB.AsEntries))
+		p = rng.IntN(n + 1)
+		m = clonePB(pb)
+		insertAt(m, p, proto.Clone(otherPB.AsEntries[q]).(*cppb.ASEntry))
+		all("insert-foreign", fmt.Sprintf("entry %d of another valid segment at %d", q, p), m, beacon, false, "C24:accepts:insert")
+		i := rng.IntN(n)
+		m = clonePB(pb)
+		m.AsEntries[i] = proto.Clone(otherPB.AsEntries[q]).(*cppb.ASEntry)
+		all("replace-entry", fmt.Sprintf("entry %d by entry %d of another valid segment", i, q), m, beacon, false, "C24:accepts:replace-entry")
+		m = clonePB(pb)
+		m.SegmentInfo = append([]byte(nil), otherPB.SegmentInfo...)
+		all("replace-info", "segment information of another valid segment", m, beacon, false, "C24:accepts:replace-info")
+	}
+
+	// 5. signer identity: entry i signed (correctly, over the right associated data) by somebody else;
+	// all other entries remain validly signed.
+	{
+		i := rng.IntN(n)
+		var y *c24AS
+		for {
+			y = w.ases[rng.IntN(len(w.ases))]
+			if y != spec.entries[i].as {
+				break
+			}
+		}
+		variants := []struct {
+			kind string
+			f    func(e *c24Entry)
+		}{
+			{"foreign-signer/key-id-names-signer", func(e *c24Entry) { e.id = y.good }},
+			{"foreign-signer/key-id-names-entry-as", func(e *c24Entry) { e.id = y.good; e.keyIDIA = e.as.ia }},
+			{"uncertified-key", func(e *c24Entry) { e.id = nil; e.key = w.orphan[rng.IntN(len(w.orphan))] }},
+			{"own-key-id-names-other-as", func(e *c24Entry) { e.keyIDIA = y.ia }},
+		}
+		for _, vr := range variants {
+			s := spec.clone()
+			vr.f(&s.entries[i])
+			if mp, err := s.build(rng); err == nil {
+				all(vr.kind, fmt.Sprintf("entry %d (%s) signer %s", i, spec.entries[i].as.ia, y.ia), seg.PathSegmentToPB(mp), beacon, false, "C24:accepts:"+vr.kind)
+			} else {
+				r.Inconclusive("fixture-build")
+			}
+		}
+	}
+
+	// 6. certificate validity vs. hop lifetime
+	c.validity(rng, base, spec, mk)
+}
+
+// validity builds segments in which one entry is signed with a key whose
+// certificate does or does not cover [timestamp, timestamp + hop lifetime].
+func (c *c24Ctx) validity(rng *rand.Rand, base int, spec c24Spec, mk func(kind, detail, cfg string) c24Case) {
+	r, w := c.r, c.w
+	n := len(spec.entries)
+	i := rng.IntN(n)
+	as := spec.entries[i].as
+	now := w.now0
+	// expFor returns an ExpTime whose lifetime is <= d (within) or > d.
+	expFor := func(d time.Duration, within bool) (uint8, bool) {
+		m, ok := beaconref.MaxExpTimeWithin(d)
+		if within {
+			if !ok {
+				return 0, false
+			}
+			return uint8(rng.IntN(int(m) + 1)), true
+		}
+		lo := 0
+		if ok {
+			lo = int(m) + 1
+		}
+		if lo > 255 {
+			return 0, false
+		}
+		if rng.IntN(2) == 0 {
+			return uint8(lo), true // just beyond
+		}
+		return uint8(lo + rng.IntN(256-lo)), true
+	}
+	type scen struct {
+		name   string
+		id     *c24Ident
+		ts     time.Time
+		exp    uint8
+		wantOK bool
+		valid  bool
+	}
+	var pairs [][2]scen // [positive companion, negative]
+	add := func(pos, neg scen) { pairs = append(pairs, [2]scen{pos, neg}) }
+	mins := func(k int) time.Duration { return time.Duration(k) * time.Minute }
+
+	{ // short: certificate ends 2 h after setup
+		ts := now.Add(-time.Duration(rng.IntN(30*60)) * time.Second)
+		room := as.shortNA.Sub(ts)
+		eOK, ok1 := expFor(room, true)
+		eBad, ok2 := expFor(room, false)
+		add(scen{"cert-ends-after-hop-expiry", as.short, ts, eOK, true, ok1},
+			scen{"cert-ends-before-hop-expiry", as.short, ts, eBad, false, ok2})
+	}
+	{ // late: certificate starts 5 min before setup
+		tsOK := now.Add(-time.Duration(rng.IntN(4*60)) * time.Second)
+		tsBad := now.Add(-mins(6) - time.Duration(rng.IntN(24*60))*time.Second)
+		e := uint8(rng.IntN(256))
+		add(scen{"cert-starts-before-timestamp", as.late, tsOK, e, true, true},
+			scen{"cert-starts-after-timestamp", as.late, tsBad, e, false, true})
+	}
+	{ // split: two certificates for one key, neither covers the whole lifetime
+		ts := now.Add(-mins(21) - time.Duration(rng.IntN(9*60))*time.Second)
+		room := as.splitANA.Sub(ts)
+		eOK, ok1 := expFor(room, true)
+		eBad, ok2 := expFor(room, false)
+		add(scen{"two-certs/first-covers", as.split, ts, eOK, true, ok1},
+			scen{"two-certs/only-union-covers", as.split, ts, eBad, false, ok2})
+	}
+	{ // exact boundaries (certificate times have 1 s resolution, hop lifetimes 0.5 s)
+		eOdd := uint8(31 + 2*rng.IntN(6))  // (1+e) even: whole seconds, 3h..3h56
+		eEven := uint8(32 + 2*rng.IntN(5)) // lifetime ends on a half second
+		dOdd, dEven := beaconref.ExpTimeDuration(eOdd), beaconref.ExpTimeDuration(eEven)
+		add(scen{"hop-expiry==cert-not-after", as.edge, as.edgeNA.Add(-dOdd), eOdd, true, true},
+			scen{"hop-expiry==cert-not-after+1s", as.edge, as.edgeNA.Add(-dOdd).Add(time.Second), eOdd, false, true})
+		add(scen{"hop-expiry==cert-not-after-0.5s", as.edge, as.edgeNA.Add(-dEven - 500*time.Millisecond), eEven, true, true},
+			scen{"hop-expiry==cert-not-after+0.5s", as.edge, as.edgeNA.Add(-dEven + 500*time.Millisecond), eEven, false, true})
+		eIn := uint8(rng.IntN(42)) // <= 4 h - so that the lifetime ends inside the certificate
+		add(scen{"timestamp==cert-not-before", as.edge, as.edgeNB, eIn, true, true},
+			scen{"timestamp==cert-not-before-1s", as.edge, as.edgeNB.Add(-time.Second), eIn, false, true})
+	}
+	buildScen := func(s scen) (*cppb.PathSegment, bool) {
+		sp := spec.clone()
+		sp.ts = s.ts
+		sp.segID = uint16(rng.IntN(1 << 16))
+		sp.entries[i].id = s.id
+		sp.entries[i].exp = s.exp
+		ps, err := sp.build(rng)
+		if err != nil {
+			r.Inconclusive("fixture-build")
+			return nil, false
+		}
+		if !ps.Info.Timestamp.Equal(s.ts) {
+			r.Inconclusive("fixture-timestamp")
+			return nil, false
+		}
+		return seg.PathSegmentToPB(ps), true
+	}
+	beacon := !spec.terminated
+	for _, pr := range pairs {
+		pos, neg := pr[0], pr[1]
+		var posPB, negPB *cppb.PathSegment
+		var ok bool
+		if pos.valid {
+			if posPB, ok = buildScen(pos); !ok {
+				posPB = nil
+			}
+		}
+		if neg.valid {
+			if negPB, ok = buildScen(neg); !ok {
+				negPB = nil
+			}
+		}
+		detail := func(s scen) string {
+			return fmt.Sprintf("entry %d of %d (%s), identity %s, timestamp = setup%+v, ExpTime %d (lifetime %v)",
+				i, n, as.ia, s.id.kind, s.ts.Sub(now), s.exp, beaconref.ExpTimeDuration(s.exp))
+		}
+		// uncached and cold cache: negative first
+		if negPB != nil {
+			cs := mk("validity/"+neg.name, detail(neg), "uncached")
+			c.check(cs, negPB, beacon, w.verifier(nil), false, "C24:accepts:cert-not-covering:"+neg.name)
+			cs.Config = "cached-cold"
+			c.check(cs, negPB, beacon, w.verifier(cache.New(time.Minute, 0)), false, "C24:accepts:cert-not-covering:"+neg.name)
+		}
+		if posPB != nil {
+			cs := mk("validity/"+pos.name, detail(pos), "uncached")
+			c.check(cs, posPB, beacon, w.verifier(nil), true, "C24:rejects-valid:"+pos.name)
+			// warm cache: the same key has just been used for a lifetime its certificate covers
+			warm := w.verifier(cache.New(time.Minute, 0))
+			cs.Config = "cached"
+			okWarm := c.check(cs, posPB, beacon, warm, true, "C24:rejects-valid:"+pos.name)
+			if negPB != nil && okWarm {
+				cs = mk("validity/"+neg.name, detail(neg)+"; cache warmed by a segment of the same key with "+detail(pos), "cached-warm")
+				c.check(cs, negPB, beacon, warm, false, "C24:cached-chain-ignores-validity")
+			}
+		}
+	}
+}
+
+func checkC24(r *mon.Run) {
+	r.Rule = "segments of 1..10 entries (every length), open beacons and terminated segments, over 10 ASes in 2 ISDs whose forged " +
+		"TRCs and certificate chains (P-256/384/521) sit in a real sqlite trust DB; verified by segverifier.VerifySegment with a real " +
+		"trust.Verifier + FetchingProvider, without and with its chain cache. Mutations at the wire level (PathSegmentToPB -> " +
+		"marshal -> mutate -> unmarshal -> SegmentFromPB/BeaconFromPB): XOR of bytes of segment info, every entry's header_and_body " +
+		"and every earlier signature (sampled in quick, every byte in thorough), appended/deleted bytes, (r, n-s) malleation, " +
+		"reorder/remove/insert/replace entries, swapped signatures or bodies, foreign info, truncated tails; re-signed variants: " +
+		"foreign or uncertified signer, key id naming another AS, certificates not covering the hop lifetime incl. exact 1 s / 0.5 s " +
+		"boundaries and two certificates whose union only covers. Structural mutations rejected by the parser are additionally fed " +
+		"to VerifySegment without structural validation. class = mutation kind x verifier configuration x where it was detected"
+	r.Assumptions = []string{
+		"oracle: verifies <=> untouched or truncated tail (or a re-signed positive control); everything else must be rejected by parser or VerifySegment",
+		"all certificates and TRCs are valid at the wall-clock time of the run with margins of >= 1 h, so no verdict depends on time.Now()",
+		"nothing is asserted about alterations of the last entry's own signature (ECDSA malleability); they are recorded as events",
+		"the remote trust fetcher is a stub that has no additional material",
+		"hash collisions / signature forgeries are not expected",
+	}
+	if err := beaconref.SelfTest(); err != nil {
+		fmt.Fprintln(os.Stderr, "reference self-test failed:", err)
+		os.Exit(2)
+	}
+	w, err := c24NewWorld()
+	if err != nil {
+		fmt.Fprintln(os.Stderr, "fixtures:", err)
+		os.Exit(2)
+	}
+	defer w.close()
+	c := &c24Ctx{r: r, w: w}
+	bases := r.Pick(100, 120)
+	const workers = 12
+	var wg sync.WaitGroup
+	for wk := 0; wk < workers; wk++ {
+		wg.Add(1)
+		go func() {
+			defer wg.Done()
+			rng := r.Rand(fmt.Sprint("c24-w", wk))
+			for b := wk; b < bases; b += workers {
+				c.family(rng, b)
+			}
+		}()
+	}
+	wg.Wait()
+	r.Extra("remote_fetch_attempts", w.fetches.Load())
+	r.Require(int64(bases*50), 60, "accept", "reject_verify", "reject_parse", "reject_verify_lenient",
+		"malleated_signature_valid_on_its_own")
+	r.RequireClasses(
+		"untouched/uncached/verifies", "untouched/cached/verifies",
+		"truncate-tail/uncached/verifies", "truncate-tail/cached/verifies",
+		"malleate-earlier-signature/uncached/detected-by=verify", "malleate-earlier-signature/cached/detected-by=verify",
+		"validity/cert-ends-before-hop-expiry/uncached/detected-by=verify",
+		"validity/hop-expiry==cert-not-after/uncached/verifies",
+	)
+}
